@@ -5,13 +5,14 @@ QUICK = [
     'CCO', 'CC(=O)O', 'C#N', 'C[N+](C)(C)C', '[O-]C=O', 'CC[O-].[Na+]', '[13CH4]', 'C[2H]', '[CH3]', 'C[CH]C',
     'c1ccccc1', 'c1ccncc1', 'c1cc[nH]c1', 'c1ccoc1', 'C1CC1', 'C1CC1C', 'C=C=C', 'CS(=O)(=O)C', 'OP(O)(O)=O',
     'C[C@H](N)O', 'F[C@](Cl)(Br)I', 'F/C=C/Cl', 'C[C@H](O)/C=C/F', 'FC=[C@]=CCl', 'C[C@H]1CCO1', '[Fe+2].[Cl-].[Cl-]',
-    'C[C@]12CCC[C@H]1C2', 'C[Si](C)(C)C', 'B(O)O', 'CC(C)(C)C', 'N#[N+][O-]', 'C[N+](=O)[O-]', 'O=C=O', '[NH4+]', 'Cl[Pt](Cl)(N)N',
+    'C[C@]12CCC[C@H]1C2', 'C[Si](C)(C)C', 'B(O)O', 'CC1=CC=C1', 'C[C@]([2H])(O)F', '[H][C@](C)(N)O',
+    'CC1C[C@@]12CCO2', 'C[C@H](N)O.O', 'O.F[C@H](Cl)Br', 'C[C@H](O)[C@H](F)[C@@H](C)O', 'C/C=C/[C@H](O)/C=C\\C', 'CC(C)(C)C', 'N#[N+][O-]', 'C[N+](=O)[O-]', 'O=C=O', '[NH4+]', 'Cl[Pt](Cl)(N)N',
 ]
 THOROUGH = QUICK + [
     'CC(=O)Oc1ccccc1', 'c1ccc2ccccc2c1', 'c1ccc2[nH]ccc2c1', 'C1CC2CC1C2', 'C1CCC2(CC1)CCCC2', 'OC(=O)[C@@H](N)CS',
     'C/C=C/C=C\\C', 'C[C@H]1CC[C@@H](O)O1', 'N[C@@]1(C)CCCO1', 'CC(C)C[C@H](N)C(O)=O', 'c1ccsc1C=O', 'Cn1cnc2c1c(=O)n(C)c(=O)n2C',
     'CC[13CH2][15NH2]', '[O-][n+]1ccccc1', 'C1=CC=CC=C1', 'C[P+](C)(C)C.[I-]', 'OB1OCCO1', '[Cu+2].[O-]S([O-])(=O)=O',
-    'F/C(Cl)=C(/Br)I', 'CC=[C@]=C(C)F', 'C[S@](=O)CC' if False else 'CS(=O)CC', '[H][C@](C)(N)O',
+    'F/C(Cl)=C(/Br)I', 'CC=[C@]=C(C)F', 'CS(=O)CC', 'CC1=CC=CC=CC=C1', 'O=C1C[C@@]2(CCCO2)CC1',
 ]
 # documented heuristic gaps (property texts of C01 / C06 / C14): kept out of the clauses that exclude them
 GAP_PSEUDO_ASYMMETRIC = ['C[C@H]1CC[C@H](C)CC1', 'C[C@H]1CC[C@@H](C)CC1']
